@@ -154,11 +154,11 @@ Lemma lin_search_S f s x p :
 Proof.
   cbn -[picks minimal spec_step vres_eqb].
   generalize (picks (x :: p)). intros ps.
-  Show. induction ps as [|[e rest] ps IH]; [done|].
-  cbn -[picks minimal spec_step vres_eqb]. rewrite <-IH. unfold try_ok; simpl.
-  destruct (minimal e (x :: p)); simpl; [|done].
-  destruct (spec_step s (e_op e)) as [s' r]; simpl.
-  destruct (vres_eqb r (e_res e)); simpl; [|done].
+  induction ps as [|[e rest] ps IH]; [done|].
+  cbn -[picks minimal spec_step vres_eqb]. rewrite <-IH. unfold try_ok; cbn [fst snd].
+  destruct (minimal e (x :: p)); cbn [andb orb]; [|done].
+  destruct (spec_step s (e_op e)) as [s' r]; cbn [fst snd].
+  destruct (vres_eqb r (e_res e)); cbn [andb orb]; [|done].
   by destruct (lin_search f s' rest).
 Qed.
 
@@ -174,7 +174,7 @@ Proof.
   { simpl. split; [|done]. intros _. exists []. split_and!; [done|apply respects_rt_nil|done]. }
   rewrite lin_search_S, existsb_exists. split.
   - (* soundness *)
-    intros ([e rest] & Hin%elem_of_list_In & Hok). unfold try_ok in Hok; simpl in Hok.
+    intros ([e rest] & Hin%elem_of_list_In & Hok). unfold try_ok in Hok; cbn [fst snd] in Hok.
     apply andb_true_iff in Hok as [[Hmin Hres]%andb_true_iff Hrec].
     apply picks_sound in Hin.
     assert (length rest ≤ f) as Hlen'.
@@ -191,7 +191,7 @@ Proof.
     apply respects_rt_cons in Hrt as [Hmin Hrt]. simpl in Hseq. destruct Hseq as [Hres Hseq].
     destruct (picks_complete _ _ _ Hperm) as (rest & Hin & Hrest).
     exists (a, rest). split; [by apply elem_of_list_In|].
-    unfold try_ok; simpl. rewrite !andb_true_iff. split_and!.
+    unfold try_ok; cbn [fst snd]. rewrite !andb_true_iff. split_and!.
     + apply minimal_spec. by rewrite <-Hperm.
     + by apply vres_eqb_eq.
     + apply IH.
